@@ -446,6 +446,22 @@ def cache_dir(root_dir):
     return None
 
 
+def cas_snapshot(root_dir):
+    """name -> sha256 of the content of every blob in the local CAS (a content-addressed entry never changes once written)"""
+    c = cache_dir(root_dir)
+    out = {}
+    d = os.path.join(c, "cas") if c else None
+    if d and os.path.isdir(d):
+        for fn in os.listdir(d):
+            fp = os.path.join(d, fn)
+            if os.path.isfile(fp) and not fn.startswith("tmp-"):
+                try:
+                    out[fn] = hashlib.sha256(open(fp, "rb").read()).hexdigest()
+                except OSError:
+                    pass
+    return out
+
+
 def taints(root_dir):
     c = cache_dir(root_dir)
     out = []
@@ -473,6 +489,8 @@ def run_real(grog, hist, base, force_minimal=None, upto=None):
     shutil.rmtree(base, ignore_errors=True)
     base = os.path.realpath(base)
     nmoved = 0
+    cas_seen = {}
+    audit_names = True
     wsdir, root_dir, trace = os.path.join(base, "ws"), os.path.join(base, "root"), os.path.join(base, "trace")
     os.makedirs(wsdir)
     os.makedirs(root_dir)
@@ -516,7 +534,12 @@ def run_real(grog, hist, base, force_minimal=None, upto=None):
             pre_taint = taints(root_dir)
             rc, out = run_grog(grog, wsdir, root_dir, trace, build_args(s, force_minimal))
             ex, pos = read_trace(trace, pos)
+            cas_now = cas_snapshot(root_dir)
+            rewritten = sorted(n for n, d in cas_now.items() if n in cas_seen and cas_seen[n] != d)
+            misnamed = sorted(n for n, d in cas_now.items() if hist.get("algo") == "sha256" and n != d) if audit_names else []
+            cas_seen.update(cas_now)
             obs.append({"ok": rc == 0, "rc": rc, "executed": ex, "fs": {p: read_path(wsdir, p) for p in watch},
+                        "cas_rewritten": rewritten, "cas_misnamed": misnamed,
                         "pre": pre, "pre_tainted": pre_taint,
                         "tainted": taints(root_dir), "log": out[-1500:]})
     return obs
@@ -1116,7 +1139,7 @@ def gen_history(rng, family="mixed", nsteps=None, full=False, minimal=None):
         st.update(fl)
         hist["steps"].append(st)
     build(["//..."] if rng.random() < 0.7 else None)
-    n = nsteps or rng.randint(2, 5)
+    n = nsteps or (rng.randint(5, 7) if family == "revert" else rng.randint(2, 5))
     if family == "cutoff":
         for _ in range(n):
             e = gen_edit(rng, cur, ["fp"])
@@ -1126,6 +1149,22 @@ def gen_history(rng, family="mixed", nsteps=None, full=False, minimal=None):
         return hist
     for _ in range(n):
         r = rng.random()
+        if family == "revert":
+            # edit / revert chains over one cache (>= 5 builds): an earlier state comes back after other states were built,
+            # with cache-disabled builds in between
+            rr = rng.random()
+            if rr < 0.45 and len(versions) >= 2:
+                cur = rng.choice(versions[:-1])
+                versions.append(cur)
+                hist["steps"].append({"k": "edit", "ws": cur, "writes": [], "what": "revert sources to an earlier version"})
+            else:
+                e = gen_edit(rng, cur, ["content", "content", "salt", "addfile"])
+                if e and wf(e[0]):
+                    hist["steps"].append({"k": "edit", "ws": e[0], "writes": e[1], "what": e[2]})
+                    cur = e[0]
+                    versions.append(cur)
+            build(["//..."], enable_cache=(rng.random() >= 0.25))
+            continue
         if family == "lostblob":
             order = sorted(cur["targets"], key=lambda x: int(cur["targets"][x]["name"][1:]))
             mid = rng.choice(order[1:-1]) if len(order) > 2 else order[0]
